@@ -2,6 +2,7 @@ package main
 
 import (
 	"fmt"
+	"golang.org/x/tools/go/ssa"
 	"os"
 	"strings"
 )
@@ -50,7 +51,7 @@ func debugDump(repo string) bool {
 			continue
 		}
 		_ = pkg
-		res := w.EnumPaths(fn, EnumOpts{})
+		res := w.EnumPaths(fn, EnumOpts{Inline: os.Getenv("PRUNNERLINT_INLINE") != "", ForceInline: func(f *ssa.Function) bool { return os.Getenv("PRUNNERLINT_INLINE") == "all" }})
 		fmt.Printf("== %s: %d paths (truncated=%v pruned=%d)\n", FuncName(fn), len(res.Paths), res.Truncated, res.Pruned)
 		for i, p := range res.Paths {
 			fmt.Printf("-- path %d end=%s ret=%v blocks=%v\n", i, p.End, p.Ret, p.Blocks)
